@@ -692,6 +692,43 @@ fn flip_case(c: &mut Ctx, text: &str) -> String {
     }
 }
 
+/// Classes of format strings that round-trip in the crate but that `Spec.Unambiguous` is KNOWN not to cover
+/// (decided on the crate's own tokenisation of the format string).  Everything else in the harness family
+/// must get a prediction from the specification.
+/// * `rfc3339-item`: `%+` (owned by C10; only `family_roundtrip_rfc3339_item` for the lone item);
+/// * `optional-fraction-after-space`: `%.f` directly after white space (`%S %.f .%3f` is really ambiguous:
+///   for a whole second the reader takes `.000` for the omitted fraction; the specification excludes the
+///   whole class).
+fn spec_excluded(fmt: &str) -> Option<&'static str> {
+    use chrono::format::Fixed;
+    let items: Vec<Item> = StrftimeItems::new(fmt).collect();
+    if items.iter().any(|it| matches!(it, Item::Fixed(Fixed::RFC3339))) {
+        return Some("rfc3339-item");
+    }
+    for w in items.windows(2) {
+        if matches!(w[0], Item::Space(_) | Item::OwnedSpace(_)) && matches!(w[1], Item::Fixed(Fixed::Nanosecond)) {
+            return Some("optional-fraction-after-space");
+        }
+    }
+    None
+}
+
+/// Values the crate round-trips through a member of the family but `Spec.expressible` is KNOWN not to cover:
+/// * `stamp-only-leap-off-local-59`: a zone-aware value printed by a `%s`-only format whose UTC second is a
+///   leap second at :59 but whose offset has seconds, so that the local reading shows the leap second off
+///   :59 (`exprLeap` looks at the local reading; the timestamp drops the fraction anyway).
+fn spec_excluded_value(form: &Form, v: &Val) -> Option<&'static str> {
+    if let Val::Z(z) = v {
+        if form.ts && form.date.is_none() {
+            let l = guard(|| z.naive_local()).ok()?;
+            if l.time().nanosecond() >= 1_000_000_000 && l.time().second() != 59 {
+                return Some("stamp-only-leap-off-local-59");
+            }
+        }
+    }
+    None
+}
+
 /// one family member × one value: the round trip, its oracle, and the perturbations
 fn run_case(c: &mut Ctx, form: &Form, v: &Val, sample: bool) {
     let fmt = &form.fmt;
@@ -722,18 +759,20 @@ fn run_case(c: &mut Ctx, form: &Form, v: &Val, sample: bool) {
         }
     };
     let got = show_parse(parsed.as_ref().unwrap());
-    // the specification (Spec/UnambiguousSpec.lean) against the implementation: wherever it predicts a
-    // result for this format and value, the prediction must be what the crate returned
-    c.op(&format!("pf.sp {} {} {} | {}", target, hex(fmt.as_bytes()), v.tokens(), got), "agree");
-    // non-vacuity of that validation: on the plainly separated classes the specification must predict
-    let plain = match v {
-        Val::D(_) => form.date.as_ref().map_or(false, |d| matches!(d.class, "calendar" | "ordinal" | "week-sun" | "week-mon" | "iso-week" | "composite")),
-        Val::T(_) => form.time.as_ref().map_or(false, |t| matches!(t.class, "hm" | "composite")),
-        _ => false,
-    };
-    if plain && exp.is_some() {
-        c.op(&format!("pf.spq {} {} {}", target, hex(fmt.as_bytes()), v.tokens()), "pred");
+    // the specification (Spec/UnambiguousSpec.lean) against the implementation.  Completeness: for every
+    // member of the harness family and every value `expected()` calls expressible, the specification MUST
+    // predict (`pf.sp` answers `nopred` otherwise, which is a disagreement), unless the format is in one of
+    // the explicitly listed classes `spec_excluded` that `Spec.Unambiguous` is known not to cover.  So a
+    // narrowing of `Unambiguous`/`expressible` is refuted here.  Soundness: a prediction must be what the crate
+    // returned, required or not (`pf.spl` is lenient only about "no prediction").
+    let excl = spec_excluded(fmt).or_else(|| spec_excluded_value(form, v));
+    if exp.is_some() && excl.is_none() {
+        c.op(&format!("pf.sp {} {} {} | {}", target, hex(fmt.as_bytes()), v.tokens(), got), "agree");
         c.count("spec:prediction-required");
+        c.count(&format!("spec:prediction-required:{}", target));
+    } else {
+        c.op(&format!("pf.spl {} {} {} | {}", target, hex(fmt.as_bytes()), v.tokens(), got), "agree");
+        c.count(&format!("spec:prediction-not-required:{}:{}", target, if exp.is_none() { "inexpressible-value" } else { excl.unwrap() }));
     }
     match &exp {
         Some(e) => {
@@ -1204,7 +1243,16 @@ fn run_audit_gaps(c: &mut Ctx) {
             };
             c.op(&format!("pf.rt time {} {}", hex(fmt.as_bytes()), v.tokens()), &reply);
             if let Some(g) = &got {
-                c.op(&format!("pf.sp time {} {} | {}", hex(fmt.as_bytes()), v.tokens(), g), "agree");
+                // the fixed-width fraction items after white space are inside `Spec.Unambiguous` (prediction
+                // required); `%.f` after white space is the excluded class
+                if ok_fmts.contains(fmt) && spec_excluded(fmt).is_none() {
+                    c.op(&format!("pf.sp time {} {} | {}", hex(fmt.as_bytes()), v.tokens(), g), "agree");
+                    c.count("spec:prediction-required");
+                    c.count("spec:prediction-required:time");
+                } else {
+                    c.op(&format!("pf.spl time {} {} | {}", hex(fmt.as_bytes()), v.tokens(), g), "agree");
+                    c.count("spec:prediction-not-required:time:optional-fraction-after-space");
+                }
             }
             let want = format!("ok {}", v.tokens());
             if ok_fmts.contains(fmt) {
@@ -1259,7 +1307,7 @@ fn run_audit_gaps(c: &mut Ctx) {
             };
             c.op(&format!("pf.rt zoned {} {}", hex(fmt.as_bytes()), v.tokens()), &reply);
             if let Some(r) = &parsed {
-                c.op(&format!("pf.sp zoned {} {} | {}", hex(fmt.as_bytes()), v.tokens(), show_parse(r)), "agree");
+                c.op(&format!("pf.spl zoned {} {} | {}", hex(fmt.as_bytes()), v.tokens(), show_parse(r)), "agree");
             }
             match parsed {
                 None => c.fail("format or parse panicked on a boundary zone-aware value", &format!("fmt {:?} value {}", fmt, v.tokens())),
